@@ -11,9 +11,9 @@ import (
 func init() {
 	register(&Prop{
 		ID: "C09", Level: "exploration",
-		Rule: "differential: a seeded base history H (several snapshot transactions of different ages, a just-begun transaction that has not read yet, RU/RC readers, overwrites, deletes, commits) is run once per collector position p in 0..|H| with a collector pass + worker-pool drain inserted before step p, once with two consecutive passes at a seeded position, and once with a pass before every step; in every variant every open transaction and the autocommit caller read every key and GetKeys after every step and must equal the reference model, in which the collector does not exist; GetReader streams opened before a pass are read to the end after it. evaluations = reads compared; distinct_nontrivial = distinct (base history, position) variants in which the pass physically removed at least one content file",
+		Rule:        "differential: a seeded base history H (several snapshot transactions of different ages, a just-begun transaction that has not read yet, RU/RC readers, overwrites, deletes, commits) is run once per collector position p in 0..|H| with a collector pass + worker-pool drain inserted before step p, once with two consecutive passes at a seeded position, and once with a pass before every step; in every variant every open transaction and the autocommit caller read every key and GetKeys after every step and must equal the reference model, in which the collector does not exist; GetReader streams opened before a pass are read to the end after it. evaluations = reads compared; distinct_nontrivial = distinct (base history, position) variants in which the pass physically removed at least one content file",
 		Assumptions: []string{"reference model refmodel (collector = no-op)"},
-		Roles: map[string]Role{"main": {N: func(t string) int { return tierN(t, 24, 400) }, Case: c09Case}},
+		Roles:       map[string]Role{"main": {N: func(t string) int { return tierN(t, 24, 400) }, Case: c09Case}},
 	})
 }
 
@@ -23,7 +23,7 @@ func c09Case(tier string, seed int64, idx int, scratch string) rt.CaseResult {
 	p := seqrun.Profile{
 		Steps: tierN(tier, 34, 50), Keys: txKeys[:2+rng.Intn(2)], Lens: []int{12}, MaxOpen: 4, TxBias: 45,
 		TagPrefix: fmt.Sprintf("h%d-", idx),
-		W: map[string]int{"begin": 14, "set": 34, "delete": 6, "commit": 10, "rollback": 3, "getreader_gc": 3, "get": 2},
+		W:         map[string]int{"begin": 14, "set": 34, "delete": 6, "commit": 10, "rollback": 3, "getreader_gc": 3, "get": 2},
 	}
 	base := seqrun.Generate(rng, p)
 	gc := []seqrun.Step{{Op: "collect", Actor: -1}, {Op: "drain", Actor: -1}}
